@@ -320,6 +320,19 @@ func builderSizePairs(p *Program, F *ssa.Function) string {
 	if ws == nil || bs == nil {
 		return "cannot find the label cut (PathsOf) and index (PathToIndex) calls"
 	}
+	// the pair may be two results of one helper call (a "choose node size" function): judge its returns
+	if ew, ok := ws.(*ssa.Extract); ok {
+		if eb, ok := bs.(*ssa.Extract); ok && ew.Tuple == eb.Tuple {
+			if call, ok := ew.Tuple.(*ssa.Call); ok {
+				if h := calleeOf(call); h != nil && trieScope(h) && len(h.Blocks) > 0 {
+					rets := returnsOf(h)
+					if len(rets) == 1 && ew.Index < len(rets[0].Results) && eb.Index < len(rets[0].Results) {
+						ws, bs = rets[0].Results[ew.Index], rets[0].Results[eb.Index]
+					}
+				}
+			}
+		}
+	}
 	wp, ok1 := ws.(*ssa.Phi)
 	bp, ok2 := bs.(*ssa.Phi)
 	if !ok1 || !ok2 {
